@@ -1,7 +1,7 @@
 (* C28 — proofs, part 4: the statements. *)
 From Coq Require Import Arith List Bool Lia.
 Import ListNotations.
-From Cffi Require Import C28.Model C28.Proofs C28.Proofs2 C28.Proofs3.
+From Cffi Require Import C28.Gen C28.Model C28.Proofs C28.Proofs2 C28.Proofs3.
 
 Theorem py_initialize_at_most_once n sched : pycount (run n sched) <= 1.
 Proof.
@@ -53,7 +53,7 @@ Qed.
 Lemma fail_stable_step s tc l : Inv s -> ist (libs s l) = DoneFail -> ist (libs (step s tc) l) = DoneFail.
 Proof.
   intros H F. destruct (fail_facts s l H F) as (C & O & Sw). destruct tc as [t c].
-  unfold step. cbv beta iota zeta. destruct (t <? nthr s) eqn:Ht; cbn [negb]; [|exact F].
+  ustep. cbv beta iota zeta. destruct (t <? nthr s) eqn:Ht; cbn [negb]; [|exact F].
   destruct (stacks s t) as [| [l0 p] rest] eqn:Hst; [destruct c; exact F|].
   assert (NI : l0 = l -> initpc p = false).
   { intros ->. destruct (initpc p) eqn:Ip; [|reflexivity].
@@ -85,7 +85,7 @@ Theorem failed_init_never_runs_extern n sched l t c t' :
 Proof.
   intros s F. destruct (fail_facts s l (run_inv n sched) F) as (C & O & Sw).
   destruct (Nat.eqb_spec t' t); [subst t' | rewrite step_other by assumption; auto].
-  unfold step. cbv beta iota zeta. destruct (t <? nthr s) eqn:Ht; cbn [negb]; [|auto].
+  ustep. cbv beta iota zeta. destruct (t <? nthr s) eqn:Ht; cbn [negb]; [|auto].
   destruct (stacks s t) as [| [l0 p] rest] eqn:Hst.
   - destruct c; simp_state; rewrite ?updf_same, ?Hst; cbn; intuition discriminate.
   - destruct p; split_ifs; simp_state; split_ifs; simp_state; rewrite ?updf_same, ?Hst; cbn [In];
@@ -101,7 +101,7 @@ Theorem failed_init_returns_zero n sched l t c rest :
   stacks (step s (t, c)) t = rest /\ zeros (step s (t, c)) l = S (zeros s l).
 Proof.
   intros s F Ht Hst. destruct (fail_facts s l (run_inv n sched) F) as (C & O & Sw).
-  unfold step. cbv beta iota zeta. rewrite Ht, Hst. cbn [negb]. rewrite O. simp_state.
+  ustep. cbv beta iota zeta. rewrite Ht, Hst. cbn [negb]. rewrite O. simp_state.
   rewrite !updf_same. auto.
 Qed.
 
@@ -118,7 +118,7 @@ Lemma enabled_top s t l p rest : (t <? nthr s) = true -> stacks s t = (l, p) :: 
   (p = PSpin -> spin s = None) -> (p = PCas1 -> cas (libs s l) = None) ->
   (p = PLock -> mutex_free s l t = true) -> enabled s t.
 Proof.
-  intros Ht Hst Hs Hc Hl. exists COk. unfold step. cbv beta iota zeta. rewrite Ht, Hst. cbn [negb].
+  intros Ht Hst Hs Hc Hl. exists COk. ustep. cbv beta iota zeta. rewrite Ht, Hst. cbn [negb].
   destruct p; try rewrite (Hs eq_refl); try rewrite (Hc eq_refl); try rewrite (Hl eq_refl);
     split_ifs; simp_state; split_ifs; simp_state; rewrite ?updf_same;
     try (intros X; inversion X; fail); try apply neq_cons; try (intros X; symmetry in X; revert X; apply neq_cons).
@@ -201,7 +201,7 @@ Proof.
   assert (F0 : mutex_free s 1 0 = false) by (vm_compute; reflexivity).
   assert (F1 : mutex_free s 0 1 = false) by (vm_compute; reflexivity).
   split; [unfold busy; rewrite S0; reflexivity|]. split; [unfold busy; rewrite S1; reflexivity|].
-  intros t c. unfold step. cbv beta iota zeta. rewrite N.
+  intros t c. ustep. cbv beta iota zeta. rewrite N.
   destruct t as [| [| t]]; cbn [Nat.ltb Nat.leb negb].
   - rewrite S0, F0. reflexivity.
   - rewrite S1, F1. reflexivity.
